@@ -103,18 +103,18 @@ def baseVars (r : ReqW) (name port : Str) : List (Str × Str) :=
     (str "REMOTE_ADDR", r.remoteIp), (str "SERVER_NAME", name), (str "SERVER_PORT", port),
     (str "SERVER_PROTOCOL", r.version), (str "wsgi.url_scheme", if r.https then str "https" else str "http") ]
 
+/-- `if name in headers: environ[key] = headers.pop(name)` on the pair (environ entries, headers) -/
+def popInto (n key : Str) (st : List (Str × Str) × List (Str × Str)) :
+    Except Err (List (Str × Str) × List (Str × Str)) :=
+  if hasName n st.2 then do
+    let (v, hs') ← popName n st.2
+    pure (dset key v st.1, hs')
+  else pure st
+
 def addHeaders (vars : List (Str × Str)) (hs : List (Str × Str)) : Except Err (List (Str × Str)) := do
-  let (vars, hs) ←
-    if hasName (str "Content-Type") hs then do
-      let (v, hs') ← popName (str "Content-Type") hs
-      pure (dset (str "CONTENT_TYPE") v vars, hs')
-    else pure (vars, hs)
-  let (vars, hs) ←
-    if hasName (str "Content-Length") hs then do
-      let (v, hs') ← popName (str "Content-Length") hs
-      pure (dset (str "CONTENT_LENGTH") v vars, hs')
-    else pure (vars, hs)
-  pure ((items hs).foldl (fun acc kv => dset (cgiName kv.1) kv.2 acc) vars)
+  let st ← popInto (str "Content-Type") (str "CONTENT_TYPE") (vars, hs)
+  let st ← popInto (str "Content-Length") (str "CONTENT_LENGTH") st
+  pure ((items st.2).foldl (fun acc kv => dset (cgiName kv.1) kv.2 acc) st.1)
 
 /-- `WSGIContainer.environ` -/
 def environ (r : ReqW) : Except Err EnvD := do
